@@ -46,7 +46,7 @@ func canConsume(gs *ref.Spec, node string) bool {
 func runC05(c *sim.Ctx, t *testing.T) {
 	sim.Install(c)
 	defer sim.Uninstall()
-	cfg := genCfg{native: true, failOps: true, nullRet: true, permanents: true, unknownNode: true, guards: true, loops: true, maxNodes: 5, errorNode: true, sameStub: true}
+	cfg := genCfg{native: true, failOps: true, nullRet: true, permanents: true, unknownNode: true, guards: true, loops: true, maxNodes: 5, errorNode: true, sameStub: true, badBranch: true}
 	// Fault: the host's context ends - before the first call, or while the k-th action of
 	// the history runs.  Only with programs whose actions are all native (they ignore the
 	// context, so every rule below still applies unchanged; what a cancelled context does
@@ -182,6 +182,15 @@ func runC05(c *sim.Ctx, t *testing.T) {
 			// quiescent: one more step without a message moves nowhere
 			var s2 *core.Stride
 			if c.Guard("Step", func() { s2, _ = spec.Step(ctx, next.Copy(), nil, ctl, nil) }) {
+				return
+			}
+			var s2err error
+			if s2 == nil {
+				// (an error is not rest either: the walk would have gone on to the error node)
+				c.Guard("Step", func() { _, s2err = spec.Step(ctx, next.Copy(), nil, ctl, nil) })
+			}
+			if s2err != nil && next.NodeName != "error" {
+				fail("not-quiescent", "Walk reported Done at %s but a further step without a message fails with %q (a walk would go on to the error node)", stateCanon(next), s2err.Error())
 				return
 			}
 			if s2 != nil && s2.To != nil {
